@@ -86,6 +86,16 @@ func TQuo(x, y *Term) *Term {
 	return UF("tquo", []string{SInt, SInt}, SInt, x, y)
 }
 
+// ElemIdx is the backing-array index of element i of a slice with offset off. A symbolic
+// offset is wrapped in the function idx(off, i) = off + i so that quantifier patterns over
+// slice elements match syntactically (E-matching does not see through arithmetic).
+func ElemIdx(off, i *Term) *Term {
+	if off.K == TNum {
+		return Add(off, i)
+	}
+	return UF("idx", []string{SInt, SInt}, SInt, off, i)
+}
+
 // TRem is Go's % (sign of dividend).
 func TRem(x, y *Term) *Term { return Sub(x, Mul(y, TQuo(x, y))) }
 
@@ -240,6 +250,54 @@ func (o *Obligation) SMT(withModel bool, forCVC5 bool) string {
 	for _, t := range inst {
 		d.Walk(t)
 	}
+	// string literals: pairwise distinct, known lengths; nil []byte has length 0
+	var strAx []*Term
+	{
+		var lits []string
+		for n, srt := range d.consts {
+			if srt == SStr && strings.HasPrefix(n, "str:") {
+				lits = append(lits, n)
+			}
+		}
+		sort.Strings(lits)
+		_, usesLen := d.funs["strlen"]
+		var ts []*Term
+		for _, n := range lits {
+			c := Const(n, SStr)
+			ts = append(ts, c)
+			if usesLen {
+				strAx = append(strAx, Eq(StrLen(c), Num(int64(len(n)-len("str:")))))
+			}
+		}
+		if _, ok := d.consts["bytes:nil"]; ok {
+			c := Const("bytes:nil", SStr)
+			ts = append(ts, c)
+			if usesLen {
+				strAx = append(strAx, Eq(StrLen(c), Num(0)))
+			}
+		}
+		if len(ts) > 1 {
+			strAx = append(strAx, &Term{K: TApp, Op: "distinct", Sort: SBool, Args: ts})
+		}
+		if usesLen {
+			sv := Bound("s", SStr)
+			strAx = append(strAx, Forall([]*Term{sv}, Ge(StrLen(sv), Num(0)), []*Term{StrLen(sv)}))
+			strAx = append(strAx, Forall([]*Term{sv}, Implies(Eq(StrLen(sv), Num(0)), Or(Eq(sv, emptyStr), Eq(sv, Const("bytes:nil", SStr)))), []*Term{StrLen(sv)}))
+			d.consts["bytes:nil"] = SStr
+			d.consts["str:"] = SStr
+			d.sorts[SStr] = true
+		}
+		if _, ok := d.funs["strcat"]; ok {
+			a, b := Bound("a", SStr), Bound("b", SStr)
+			d.funs["strlen"] = []string{SStr, SInt}
+			strAx = append(strAx, Forall([]*Term{a, b}, Eq(StrLen(StrCat(a, b)), Add(StrLen(a), StrLen(b))), []*Term{StrCat(a, b)}))
+		}
+	}
+	if _, ok := d.funs["idx"]; ok {
+		a, b := Bound("o", SInt), Bound("i", SInt)
+		ix := UF("idx", []string{SInt, SInt}, SInt, a, b)
+		strAx = append(strAx, Forall([]*Term{a, b}, Eq(ix, Add(a, b)), []*Term{ix}))
+	}
 	skip := map[string]bool{}
 	for _, pf := range preludeFuns {
 		skip[pf.name] = true
@@ -259,6 +317,12 @@ func (o *Obligation) SMT(withModel bool, forCVC5 bool) string {
 		fmt.Fprintf(&sb, "(assert %s)\n", a)
 	}
 	for _, a := range inst {
+		fmt.Fprintf(&sb, "(assert %s)\n", a)
+	}
+	for _, a := range strAx {
+		if o.noQuant && a.K == TQuant && !strings.Contains(a.String(), "(idx ") {
+			continue
+		}
 		fmt.Fprintf(&sb, "(assert %s)\n", a)
 	}
 	for _, h := range hyps {
